@@ -332,7 +332,9 @@ def emit() -> str:
     irm = find_method(fs_c, "_init_request_manager")
     L.append("/-- the local handler functions of `FileSystem._init_request_manager`, cleaned -/")
     L.append("def fsHandlers : List (String × String) := [")
-    L.append(",\n".join(f"  ({lean_str(n.name)}, {lean_str(cleaned(n))})" for n in irm.body if isinstance(n, ast.FunctionDef)))
+    from harness.extract.fsxlate import HANDLERS as _XH, VALIDATORS as _XV
+    xh = {h[0] for h in _XH}                          # translated (fsxlate, C15_gen_handlers): no textual pin
+    L.append(",\n".join(f"  ({lean_str(n.name)}, {lean_str(cleaned(n))})" for n in irm.body if isinstance(n, ast.FunctionDef) and n.name not in xh))
     L.append("]")
 
     # the full request table
@@ -348,6 +350,8 @@ def emit() -> str:
     L.append("def validators : List (String × String) := [")
     rows = [(f"FileSystem.{v}", _validator_expr(fs_c, v)) for v in ("_FolderExistsValidator", "_FolderNotDeletedValidator", "_FileExistsValidator")]
     rows += [(f"Folder.{v}", _validator_expr(fo_c, v)) for v in ("_FileExistsValidator", "_FileNotDeletedValidator")]
+    xv = {f"{v[1]}.{v[2]}" for v in _XV}              # translated (fsxlate, C15_gen_validators): no textual pin
+    rows = [r for r in rows if r[0] not in xv]
     L.append(",\n".join(f"  ({lean_str(a)}, {lean_str(b)})" for a, b in rows))
     L.append("]")
     # how the validator attributes are bound
